@@ -214,7 +214,7 @@ func c17Ns(t time.Time) int64 { return t.UnixNano() }
 
 func (sc *c17DistScenario) head() string {
 	var sb strings.Builder
-	fmt.Fprintf(&sb, "dist %s %s PRE %s %s D6 %d %d %d %d %d %d NA %d ROOT %d N %d", sc.policy, verifkit.B(sc.disabled), verifkit.B(sc.isPre), verifkit.B(sc.asPre),
+	fmt.Fprintf(&sb, "dist %s %s PRE %s %s PEND %s D6 %d %d %d %d %d %d NA %d ROOT %d N %d", sc.policy, verifkit.B(sc.disabled), verifkit.B(sc.isPre), verifkit.B(sc.asPre), verifkit.B(sc.pending),
 		sc.nb.Year(), int(sc.nb.Month()), sc.nb.Day(), sc.na.Year(), int(sc.na.Month()), sc.na.Day(), c17Ns(sc.na), sc.rootIdx, len(sc.logs))
 	for _, l := range sc.logs {
 		ia, ib := "-", "-"
@@ -254,7 +254,8 @@ func (sc *c17DistScenario) tail(res *c17Result) string {
 		}
 	}
 	sort.Ints(ids)
-	fmt.Fprintf(&sb, " D %d R %d %s %d", c17Ms(sc.deadline), c17Ms(res.retAt), verifkit.B(res.err != nil), len(ids))
+	fmt.Fprintf(&sb, " D %d R %d %s%s %d", c17Ms(sc.deadline), c17Ms(res.retAt), verifkit.B(res.err != nil),
+		c17FailedGroups(res.err, map[string]int{"Google-operated": 1, "Non-Google-operated": 2, ctpolicy.BaseName: 0}), len(ids))
 	for _, i := range ids {
 		fmt.Fprintf(&sb, " %d", i)
 	}
@@ -306,6 +307,8 @@ func c17GenDist(r *verifkit.Rand) *c17DistScenario {
 	case 2:
 		sc.na = sc.na.Add(-time.Second)
 	}
+	sc.pending = r.Intn(5) == 0
+	fallback := !sc.disabled && r.Intn(7) == 0 // the chain's root is in no known root set and some log has no root data
 	n := 3 + r.Intn(6)
 	nG := 1 + r.Intn(n-1)
 	if r.Intn(20) == 0 {
@@ -315,6 +318,8 @@ func c17GenDist(r *verifkit.Rand) *c17DistScenario {
 		l := &c17DLog{id: i, url: c17LogURL(i), google: i <= nG, status: int(loglist3.UsableLogStatus)}
 		if r.Intn(9) == 0 {
 			l.status = []int{1, 2, 4, 5, 6, 0}[r.Intn(6)]
+		} else if sc.pending && r.Intn(3) == 0 {
+			l.status = 1 + r.Intn(2)
 		}
 		switch x := r.Intn(10); {
 		case x < 5: // no interval
@@ -337,6 +342,12 @@ func c17GenDist(r *verifkit.Rand) *c17DistScenario {
 			l.roots = []int{(sc.rootIdx + 1) % 3}
 		default:
 			l.rootsErr = true
+		}
+		if fallback {
+			l.rootsErr, l.roots = false, []int{(sc.rootIdx + 1 + r.Intn(2)) % 3}
+			if i == 1 || r.Intn(3) == 0 {
+				l.rootsErr, l.roots = true, nil
+			}
 		}
 		sc.logs = append(sc.logs, l)
 	}
@@ -412,15 +423,13 @@ func c17DistOracle(out *verifkit.Out, tag string, sc *c17DistScenario, res *c17R
 	for _, l := range sc.logs {
 		by[l.url] = l
 	}
-	// was the root check in force? (root known to the merged pool and checking enabled)
-	rootChecked := false
-	if !sc.disabled {
-		for _, l := range sc.logs {
-			if l.status >= 1 && l.status <= 3 && !l.rootsErr {
-				for _, r := range l.roots {
-					if r == sc.rootIdx {
-						rootChecked = true
-					}
+	// does the chain verify against the merged pool (some log with a client and known roots accepts its root)?
+	inPool := false
+	for _, l := range sc.logs {
+		if l.status >= 1 && l.status <= 3 && !l.rootsErr {
+			for _, r := range l.roots {
+				if r == sc.rootIdx {
+					inPool = true
 				}
 			}
 		}
@@ -437,20 +446,30 @@ func c17DistOracle(out *verifkit.Out, tag string, sc *c17DistScenario, res *c17R
 			out.Fail("dist/double-submit "+tag, cc.log+" | "+line)
 		}
 		if l.status != int(loglist3.UsableLogStatus) {
+			// with loadPendingLogs the caller asks for pending / qualified logs to be loaded as well: they are contacted
+			// by a second call, unfiltered (observation, see notes); anything else is a violation
+			if sc.pending && (l.status == int(loglist3.PendingLogStatus) || l.status == int(loglist3.QualifiedLogStatus)) {
+				out.Count("class:pending-log-contacted")
+				continue
+			}
 			out.Fail("dist/contacted-not-usable "+tag, fmt.Sprintf("%s status %d | %s", cc.log, l.status, line))
 		}
 		if iv := l.interval; iv != nil && !(!sc.na.Before(iv.StartInclusive) && sc.na.Before(iv.EndExclusive)) {
 			out.Fail("dist/contacted-outside-temporal-interval "+tag, fmt.Sprintf("%s NotAfter %v interval [%v,%v) | %s", cc.log, sc.na, iv.StartInclusive, iv.EndExclusive, line))
 		}
-		if rootChecked && !l.rootsErr {
+		// "whose accepted roots, where known, include the chain's root" (unless the caller disabled the check)
+		if !sc.disabled && !l.rootsErr {
 			ok := false
 			for _, r := range l.roots {
 				if r == sc.rootIdx {
 					ok = true
 				}
 			}
-			if !ok {
+			if !ok && inPool {
 				out.Fail("dist/contacted-root-incompatible "+tag, fmt.Sprintf("%s accepts %v, chain root %d | %s", cc.log, l.roots, sc.rootIdx, line))
+			} else if !ok {
+				// fallback branch of addSomeChain: the chain does not verify against the merged pool, root data is incomplete
+				c17FailCapped(out, "rootfallback", "rootfallback "+tag, fmt.Sprintf("%s is known to accept only roots %v, the chain's root is %d (in no known root set; some log has no root data yet) | %s", cc.log, l.roots, sc.rootIdx, line))
 			}
 		}
 	}
